@@ -10,6 +10,7 @@ Line forms (tokens separated by blanks, parentheses are tokens, strings are hex 
   `evp <expr> => some <value>|none|panic|abort`                     C11/C08: eval_pattern_expr, vars = bindings
   `probe <path> <text> => ok|panic|abort`                            C11, no model (unmodelled forms)
   `c10 <expr> => <res> | <res> | <expr>`                             C10: unfolded, folded, folded AST
+  `c10w <expr> => kept|dropped`                                      C10: `.where(<expr>)` after parse()+Engine
   `c10t <expr> => <res>`                                             C10: value after parse()+Engine
 -/
 namespace Varpulis.Driver.ExprD
@@ -612,6 +613,19 @@ def step (st : St) (line : String) : St × String :=
     match parseExpr rest with
     | some (e, []) => (st, stepC10 st.env e impl)
     | _ => (st, "BADLINE c10")
+  | "c10w" :: rest =>
+    match parseExpr rest with
+    | some (e, []) =>
+      let ru := eval hw .fixed st.env e
+      let rf := eval hw .fixed st.env (fold hw true e)
+      let sh (r : Res) := if keeps r then "kept" else "dropped"
+      (st, if impl == "panic" || impl == "abort" then s!"JUDGE C10 the folded program {impl}s"
+           else if resHasMarker ru then "SKIP"
+           else if impl == sh ru then "ok"
+           else if unsafeIdent hw st.env e then s!"KNOWN[C10-identity-rewrite] .where of the folded program: {impl}, of the unfolded expression: {sh ru}"
+           else if impl == sh rf then s!"JUDGE C10 .where of the folded program: {impl}, of the unfolded expression: {sh ru}"
+           else s!"DIFF model={sh ru} (folded {sh rf})")
+    | _ => (st, "BADLINE c10w")
   | "c10t" :: rest =>
     match parseExpr rest with
     | some (e, []) => (st, stepC10t st.env e impl)
